@@ -394,7 +394,7 @@ def run(ctx):
                 s.close()
 
     try:
-        ctx.explore_machine(Machine, ctx.scale(90, 700), steps=40)
+        ctx.explore_machine(Machine, ctx.scale(70, 700), steps=40)
     except Exception as e:
         # Once the safety-net budget is exhausted the machine turns into a no-op, which hypothesis reports as
         # flaky data generation when it happens while a failing history is being shrunk/replayed. That says
